@@ -467,8 +467,12 @@ def check(ctx):
              props.get('channel') == 'property(_get_channel, _set_channel)', 'port/channel properties: %s' % {k: props.get(k) for k in ('port', 'channel')})
     sh = pkc.method('set_header')
     stsh = [norm(s) for s in sh.node.body if isinstance(s, (ast.Assign, ast.Expr)) and not isinstance(getattr(s, 'value', None), ast.Constant)]
-    ctx.inst('R4', sh, 'set_header', 'self._port = port' in stsh and ('self.channel = channel' in stsh or 'self._channel = channel' in stsh) and
-             'self._update_header()' in stsh, 'set_header(port, channel) must store both and refresh the header; body %s' % stsh)
+    # the header byte is refreshed after BOTH fields are stored: by an explicit _update_header() at the end, or because the last store
+    # goes through a property setter (which refreshes, see setter-updates-header) and the other field was stored before it
+    fld_st = [t for t in stsh if t in ('self._port = port', 'self.port = port', 'self.channel = channel', 'self._channel = channel')]
+    both = len(fld_st) == 2 and {t.split(' = ')[1] for t in fld_st} == {'port', 'channel'}
+    refreshed = both and ((stsh and stsh[-1] == 'self._update_header()' and stsh.index(fld_st[-1]) < len(stsh) - 1) or fld_st[-1] in ('self.port = port', 'self.channel = channel') and stsh[-1] == fld_st[-1])
+    ctx.inst('R4', sh, 'set_header', both and refreshed, 'set_header(port, channel) must store both and refresh the header after the second store; body %s' % stsh)
     # size check chain
     spf = m.func(CF, 'Crazyflie.send_packet')
     g = cfg_of(spf)
